@@ -308,6 +308,10 @@ int ares_init_options(ares_channel_t           **channelptr,
     goto done;
   }
 
+  /* The default socket functions must be in place before any configuration is
+   * read, validating the interface of a link-local server needs them */
+  ares_set_socket_functions_def(channel);
+
   /* Initialize configuration by each of the four sources, from highest
    * precedence to lowest.
    */
@@ -348,8 +352,6 @@ int ares_init_options(ares_channel_t           **channelptr,
                    ares_strerror(status)));
     goto done;
   }
-
-  ares_set_socket_functions_def(channel);
 
   /* Initialize the event thread */
   if (channel->optmask & ARES_OPT_EVENT_THREAD) {
